@@ -56,7 +56,7 @@ type reader struct {
 	byPhase                       [nPhases]uint64
 	distinct                      map[thor.Bytes32]bool
 	racedPairs                    map[[33]byte]bool // (observed block, importer phase) of observations during an import
-	observed                      []thor.Bytes32 // distinct bests in first-seen order (revisions for later queries)
+	observed                      []thor.Bytes32    // distinct bests in first-seen order (revisions for later queries)
 	lastFin                       thor.Bytes32
 	maxFinSteps                   int
 	apiCalls, api4xx              uint64
